@@ -78,7 +78,7 @@ Theorem monitor_accepts_model : forall cfg pre r tab ref grp valid ids secrets k
   cfg_valid cfg = true ->
   sane cfg r e ids secrets kind csess = true ->
   (leak = true -> has_field (rs_body (serve cfg e pre r)) = true) ->
-  holds_req cfg r ids secrets kind csess (rs_status (serve cfg e pre r)) (rs_calls m) (rs_body (serve cfg e pre r)) leak = true.
+  holds_req cfg r ids secrets kind csess (rs_status (serve cfg e pre r)) (rs_calls m) (rs_body (serve cfg e pre r)) leak false = true.
 Proof.
   intros cfg pre r tab ref grp valid ids secrets kind csess leak e m Hv Hsane Hleak. subst m.
   unfold sane in Hsane. apply andb_true_iff in Hsane as [Hsane Hcode].
@@ -116,14 +116,14 @@ Proof.
 Qed.
 
 (* so a case whose observation equals the model's prediction is never judged a violation *)
-Corollary judge_model_is_fine : forall cfg pre r tab ref grp valid ids secrets kind csess,
+Corollary judge_model_is_fine : forall mode cfg pre r tab ref grp valid ids secrets kind csess,
   let e := mk_env tab ref grp valid in
   let m := serve cfg e pre r in
   sane cfg r e ids secrets kind csess = true ->
-  judge (CReq cfg (cfg_valid cfg) pre r tab ref grp valid ids secrets kind csess
-              (rs_status m) (rs_calls m) (rs_body m) (has_field (rs_body m))) = 0.
+  judge (CReq mode cfg (cfg_valid cfg) pre r tab ref grp valid ids secrets kind csess
+              (rs_status m) (rs_calls m) (rs_body m) (has_field (rs_body m)) false) = 0.
 Proof.
-  intros cfg pre r tab ref grp valid ids secrets kind csess e m Hsane.
+  intros mode cfg pre r tab ref grp valid ids secrets kind csess e m Hsane.
   unfold judge. fold e. fold m. rewrite Hsane.
   assert (Hb : body_close (if str_eqb (rq_path r) p_redeem then 10%Z else 0%Z) (rs_body m) (rs_body m) = true).
   { unfold body_close, opt_str_eqb, option_eqb, expires_close.
